@@ -230,4 +230,49 @@ theorem init_fields (allocSize poolSize inc : Nat) (ha : allocSize % A = 0) (hs 
     · simp only [h1, h2, if_false, Bool.false_eq_true]
       simp [create]
 
+theorem bodyDrop_spec {c : CM} {r : Nat} (h : Recv c r) (k : Nat) (hk : k ≤ c.rbOff) :
+    ∃ c', Mhd.ConnRead.op c (.bodyDrop k) = some c' ∧ Recv c' r ∧ c'.rbOff = c.rbOff - k ∧
+      c'.rbSize = c.rbSize ∧ c'.inc = c.inc ∧ c'.poolSize = c.poolSize ∧ c'.p = c.p := by
+  have hi := step_bodyDrop c k h.inv
+  have hs := h.snd
+  have e : step c (.bodyDrop k) = ({ c with rbOff := c.rbOff - k }, .ok) := by
+    simp only [step, h.rb, hs, Bool.not_false, Option.isSome_some, true_and, hk, if_true]
+  rw [e] at hi
+  exact ⟨_, by simp only [Mhd.ConnRead.op, e], ⟨hi, hs, h.rb, h.base⟩, rfl, rfl, rfl, rfl, rfl⟩
+
+/-- the reply is sent and the connection recycled: `connection_shrink_read_buffer`, then
+    `connection_reset (c, true)`: the read-ahead is kept, the window starts at the arena base again -/
+theorem shrink_reset_spec {c : CM} {r : Nat} (h : Recv c r) :
+    ∃ c1 c2, Mhd.ConnRead.op c .shrinkRead = some c1 ∧ Mhd.ConnRead.op c1 .resetConn = some c2 ∧
+      Recv c2 0 ∧ c2.rbOff = c.rbOff ∧ c2.inc = c.inc := by
+  have f := inv_recv h.inv h.snd
+  have hs := h.snd
+  have i1 := step_shrinkRead c h.inv
+  have e1 : step c .shrinkRead = ({ shrinkRead c with sending := true }, .ok) := by
+    simp only [step, hs, Bool.false_eq_true, if_false]
+  rw [e1] at i1
+  have hoff : (shrinkRead c).rbOff = c.rbOff ∧ (shrinkRead c).wbSend = c.wbSend ∧ (shrinkRead c).wbApp = c.wbApp ∧
+      (shrinkRead c).inc = c.inc := by
+    unfold shrinkRead
+    split
+    · exact ⟨rfl, rfl, rfl, rfl⟩
+    · split
+      · exact ⟨rfl, rfl, rfl, rfl⟩
+      · split <;> exact ⟨rfl, rfl, rfl, rfl⟩
+  have i2 := step_resetConn _ i1
+  have hw : ({ shrinkRead c with sending := true } : CM).wbSend = ({ shrinkRead c with sending := true } : CM).wbApp := by
+    show (shrinkRead c).wbSend = (shrinkRead c).wbApp
+    rw [hoff.2.1, hoff.2.2.1, f.2.2.2.2.2.1, f.2.2.2.2.1]
+  have e2 : step { shrinkRead c with sending := true } .resetConn =
+      ({ resetConn { shrinkRead c with sending := true } with sending := false }, .ok) := by
+    have hc : ({ shrinkRead c with sending := true } : CM).sending = true ∧
+        ({ shrinkRead c with sending := true } : CM).wbSend = ({ shrinkRead c with sending := true } : CM).wbApp := ⟨rfl, hw⟩
+    show (if _ then _ else _) = _
+    rw [if_pos hc]
+  rw [e2] at i2
+  refine ⟨{ shrinkRead c with sending := true }, { resetConn { shrinkRead c with sending := true } with sending := false },
+    by simp only [Mhd.ConnRead.op, e1], by simp only [Mhd.ConnRead.op, e2], ⟨i2, rfl, rfl, rfl⟩, ?_, ?_⟩
+  · show (shrinkRead c).rbOff = c.rbOff; exact hoff.1
+  · show (shrinkRead c).inc = c.inc; exact hoff.2.2.2
+
 end Mhd.ConnMem
